@@ -361,6 +361,21 @@ impl ConsumeUnverifiedBlockProcessor {
                 .proposal_table
                 .finalize(origin_proposals, tip_header.number());
             fork.detached_proposal_id = detached_proposal_id;
+            #[cfg(ckb_verif)]
+            crate::verif::emit(
+                "VerifyBest",
+                &format!(
+                    "\"b\":{},\"number\":{},\"td\":\"{:x}\",\"detached\":{},\"attached\":{},\"dropped\":{},\"set\":{},\"gap\":{}",
+                    crate::verif::h(&block.hash()),
+                    block.number(),
+                    cannon_total_difficulty,
+                    crate::verif::list(fork.detached_blocks().iter().map(|b| b.hash())),
+                    crate::verif::list(fork.attached_blocks().iter().map(|b| b.hash())),
+                    crate::verif::list(fork.detached_proposal_id().iter().cloned()),
+                    crate::verif::list(new_proposals.set().iter().cloned()),
+                    crate::verif::list(new_proposals.gap().iter().cloned()),
+                ),
+            );
 
             let new_snapshot =
                 self.shared
@@ -879,6 +894,19 @@ impl ConsumeUnverifiedBlockProcessor {
             .proposal_table
             .finalize(origin_proposals, target_tip_header.number());
         fork.detached_proposal_id = detached_proposal_id;
+        #[cfg(ckb_verif)]
+        crate::verif::emit(
+            "Truncate",
+            &format!(
+                "\"b\":{},\"number\":{},\"detached\":{},\"dropped\":{},\"set\":{},\"gap\":{}",
+                crate::verif::h(target_tip_hash),
+                target_tip_header.number(),
+                crate::verif::list(fork.detached_blocks().iter().map(|b| b.hash())),
+                crate::verif::list(fork.detached_proposal_id().iter().cloned()),
+                crate::verif::list(new_proposals.set().iter().cloned()),
+                crate::verif::list(new_proposals.gap().iter().cloned()),
+            ),
+        );
 
         let new_snapshot = self.shared.new_snapshot(
             target_tip_header,
